@@ -107,9 +107,17 @@ func c20Handlers() []c20Handler {
 		{"SSO-from-A-without-session", form("/sso", sso(c19EntA), false)},
 		{"LOGIN-with-a-wrong-password", form("/login", url.Values{"user": {"alice"}, "password": {"nope"}}, false)},
 		{"GET-login-page", plain("GET", "/login", "", false)},
-		// credentials beyond what the hash function takes (72 octets): refused, like any wrong password
-		{"LOGIN-with-an-over-long-password", form("/login", url.Values{"user": {"alice"}, "password": {"p1" + strings.Repeat("x", 80)}}, false)},
 	}
+}
+
+// c20OverLong: credentials beyond what the hash function takes (72 octets) - refused, like any wrong password. (Only in the serial
+// repeated-requests group: whatever such a request might leave behind is looked for there, under a deadline.)
+func c20OverLong() c20Handler {
+	return c20Handler{"LOGIN-with-an-over-long-password", func() *http.Request {
+		r := httptest.NewRequest("POST", c19Root+"/login", strings.NewReader(url.Values{"user": {"alice"}, "password": {"p1" + strings.Repeat("x", 80)}}.Encode()))
+		r.Header.Set("Content-Type", "application/x-www-form-urlencoded")
+		return r
+	}}
 }
 
 // c20Server builds a pre-seeded server over the real MemoryStore (wrapped).
@@ -301,8 +309,9 @@ func runC20(c *core.Ctx) {
 	// no request uses up something the next one needs: on one long-lived server, after any handler has been served six times over,
 	// every handler is still served (each request under a deadline)
 	c.Group("every-request-completes-however-often-it-was-made-before")
-	for i := range hs {
-		i := i
+	hsAll := append(append([]c20Handler{}, hs...), c20OverLong())
+	for i := range hsAll {
+		i, hs := i, hsAll
 		c.Case("repeated/"+hs[i].name+"-x6-then-every-handler", func(t *core.T) {
 			t.NonTrivial()
 			if c19Hung {
